@@ -1,6 +1,6 @@
 /* vdep: a command that "succeeds" and leaves behind a dependency file with arbitrary bytes.
  *
- *   vdep TAG OUT DEPS HEX
+ *   vdep TAG OUT DEPS HEX [DEPS2 HEX2]...
  *       appends "TAG\n" to exec.log (in the sandbox root = nearest ancestor of the cwd holding `.vclock`,
  *       at most 6 levels up; the cwd if there is none), writes "TAG" to OUT, writes the bytes encoded by
  *       HEX (two hex digits per byte, "" = empty file, "-" = do not create the file) to DEPS, exits 0.
@@ -36,7 +36,7 @@ static int put(const char* path, const char* data, size_t n, int flags) {
 }
 
 int main(int argc, char** argv) {
-  if (argc != 5) return 2;
+  if (argc < 5 || (argc - 3) % 2) return 2;
   char root[64] = "", p[128];
   struct stat st;
   int found = 0;
@@ -51,15 +51,19 @@ int main(int argc, char** argv) {
   snprintf(p, sizeof p, "%sexec.log", root);
   if (put(p, line, (size_t)n, O_APPEND)) return 1;
   if (put(argv[2], argv[1], strlen(argv[1]), O_TRUNC)) return 1;
-  const char* hex = argv[4];
-  if (!strcmp(hex, "-")) return 0;
-  size_t l = strlen(hex);
-  if (l % 2) return 2;
-  char* buf = malloc(l / 2 + 1);
-  for (size_t i = 0; i < l / 2; ++i) {
-    int a = hexval(hex[2 * i]), b = hexval(hex[2 * i + 1]);
-    if (a < 0 || b < 0) return 2;
-    buf[i] = (char)(a * 16 + b);
+  /* (DEPS HEX) pairs: argv[3] argv[4] [argv[5] argv[6] ...] */
+  for (int k = 3; k + 1 < argc; k += 2) {
+    const char* hex = argv[k + 1];
+    if (!strcmp(hex, "-")) continue;
+    size_t l = strlen(hex);
+    if (l % 2) return 2;
+    char* buf = malloc(l / 2 + 1);
+    for (size_t i = 0; i < l / 2; ++i) {
+      int a = hexval(hex[2 * i]), b = hexval(hex[2 * i + 1]);
+      if (a < 0 || b < 0) return 2;
+      buf[i] = (char)(a * 16 + b);
+    }
+    if (put(argv[k], buf, l / 2, O_TRUNC)) return 1;
   }
-  return put(argv[3], buf, l / 2, O_TRUNC);
+  return 0;
 }
